@@ -20,10 +20,10 @@
 (* bind the qualifier, A4w = IMPL03 instead).                              *)
 (* Classes: sibling (regular file of p), test (in-package _test.go),       *)
 (* xtest (external test package), tdpath (a package under a directory      *)
-(* whose path contains "testdata"), genpath (a package under zzgen/),      *)
+(* whose path contains "testdata"), genpath (a package under zzGen/),      *)
 (* genfile / genfirst (a regular file of p itself whose *name* contains    *)
-(* zzgen and sorts after / before a.go), gentest (an in-package _test.go   *)
-(* file whose name contains zzgen: excluded by name *and* a test file).    *)
+(* zzGen and sorts after / before a.go), gentest (an in-package _test.go   *)
+(* file whose name contains zzGen: excluded by name *and* a test file).    *)
 (* Configuration: scan (scan-tests), paths (exclude-paths items).          *)
 (*                                                                         *)
 (* L2: the three readers, each iterating over the files that the filter    *)
@@ -40,26 +40,29 @@ VARIABLES sc, ph, annSeen, fnAnnSeen, ignSeen, diags
 
 vars == <<sc, ph, annSeen, fnAnnSeen, ignSeen, diags>>
 
-Classes == {"sibling", "test", "xtest", "tdpath", "genpath", "genfile", "genfirst", "gentest"}
-PathSets == {{}, {"testdata"}, {"zzgen"}, {"testdata", "zzgen"}, {"zzgen", "zzgenerated"}, {"zzgenerated"}, {"zzgen/q"}}
-\* zzgen/q spans the boundary between a directory and a file name: it matches zzgen/q.go (class genpath) only
-\* zzgenerated matches no file of the scenarios; next to zzgen it is a longer entry that *contains* the shorter one
+Classes == {"sibling", "test", "xtest", "tdpath", "genpath", "genfile", "genfirst", "gentest", "testdecl"}
+\* testdecl: X is an in-package _test.go file that declares the annotated XT; an external test file of the same directory mutates it (A2t).
+\* exclude-paths entries are case-sensitive substrings: the directory / file-name token of the scenarios is spelled zzGen
+PathSets == {{}, {"testdata"}, {"zzGen"}, {"testdata", "zzGen"}, {"zzGen", "zzGenerated"}, {"zzGenerated"}, {"zzGen/q"}}
+\* zzGen/q spans the boundary between a directory and a file name: it matches zzGen/q.go (class genpath) only
+\* zzGenerated matches no file of the scenarios; next to zzGen it is a longer entry that *contains* the shorter one
 
-Valid(s) == /\ (s.ann => s.cls \in {"sibling", "tdpath", "genpath", "genfile", "genfirst"})
+Valid(s) == /\ (s.ann => s.cls \in {"sibling", "tdpath", "genpath", "genfile", "genfirst", "testdecl"})
+            /\ (s.cls = "testdecl" => s.ann /\ ~s.viol /\ ~s.ign)
             /\ (s.cls = "sibling" => TRUE)
 
 Init == /\ sc \in {s \in [cls : Classes, ann : BOOLEAN, viol : BOOLEAN, ign : BOOLEAN, scan : BOOLEAN, paths : PathSets] : Valid(s)}
         /\ ph = "ann" /\ annSeen = FALSE /\ fnAnnSeen = FALSE /\ ignSeen = FALSE /\ diags = {}
 
-IsTest(cls) == cls \in {"test", "xtest", "gentest"}
+IsTest(cls) == cls \in {"test", "xtest", "gentest", "testdecl"}
 Skip == \/ IsTest(sc.cls) /\ ~sc.scan
         \/ sc.cls = "tdpath" /\ "testdata" \in sc.paths
-        \/ sc.cls \in {"genpath", "genfile", "genfirst", "gentest"} /\ "zzgen" \in sc.paths
-        \/ sc.cls = "genpath" /\ "zzgen/q" \in sc.paths
+        \/ sc.cls \in {"genpath", "genfile", "genfirst", "gentest"} /\ "zzGen" \in sc.paths
+        \/ sc.cls = "genpath" /\ "zzGen/q" \in sc.paths
 
 (* L1 *)
 Expected == {"A1", "A4"}
-            \cup (IF sc.ann /\ ~Skip THEN {"A2", "A3"} ELSE {})
+            \cup (IF sc.ann /\ ~Skip THEN (IF sc.cls = "testdecl" THEN {"A2t"} ELSE {"A2", "A3"}) ELSE {})
             \cup (IF sc.viol /\ ~Skip /\ ~sc.ign THEN {"X1"} ELSE {})
             \cup (IF sc.viol /\ ~Skip /\ ~sc.ign /\ ~IsTest(sc.cls) THEN {"X2", "X3"} ELSE {})
 
@@ -89,8 +92,10 @@ Check ==
   /\ ph = "check"
   /\ diags' = {"A1"}
               \cup (IF "PkgWideImports" \in Deviations /\ sc.cls \notin {"tdpath", "genpath", "xtest"} THEN {"A4w"} ELSE {"A4"})
-              \cup (IF annSeen THEN {"A2"} ELSE {})
-              \cup (IF fnAnnSeen THEN {"A3"} ELSE {})
+              \* FactsWithoutTestAnns: what a test file declares is left out of the exported fact (the external test package sees nothing)
+              \cup (IF annSeen /\ sc.cls = "testdecl" /\ ~("FactsWithoutTestAnns" \in Deviations) THEN {"A2t"} ELSE {})
+              \cup (IF annSeen /\ sc.cls # "testdecl" THEN {"A2"} ELSE {})
+              \cup (IF fnAnnSeen /\ sc.cls # "testdecl" THEN {"A3"} ELSE {})
               \cup (IF sc.viol /\ ~Filtered("CheckNoFilter") /\ ~ignSeen THEN {"X1"} ELSE {})
               \cup (IF sc.viol /\ ~Filtered("CheckNoFilter") /\ ~ignSeen /\ (~IsTest(sc.cls) \/ "TonlInTests" \in Deviations) THEN {"X2", "X3"} ELSE {})
               \cup (IF sc.viol /\ ~Filtered("CheckNoFilter") /\ ~ignSeen /\ IsTest(sc.cls) /\ "TonlPkgLevelInTests" \in Deviations THEN {"X3"} ELSE {})
@@ -110,7 +115,7 @@ NoneInSkipped == (Done /\ Skip) => diags \cap {"X1", "X2", "X3"} = {}
 \* (2) what a skipped file contains does not influence the other files
 Inert == (Done /\ Skip) => diags = {"A1", "A4"}
 \* (3) test files never receive TONL diagnostics, but everything else when scan-tests is on
-TestFiles == (Done /\ IsTest(sc.cls)) => /\ "X2" \notin diags /\ "X3" \notin diags
+TestFiles == (Done /\ IsTest(sc.cls)) => /\ "X2" \notin diags /\ "X3" \notin diags /\ "A3" \notin diags
                                           /\ (sc.scan /\ ~Skip /\ sc.viol /\ ~sc.ign => "X1" \in diags)
 
 EmitInv == (Emit /\ Done) => PrintT("@E " \o ToJson([sc |-> sc, skip |-> Skip, expect |-> Expected]))
